@@ -91,6 +91,7 @@ Judge_words(e) ==
   On("C04", << Chk("C04", "VERDICT", "find_words panicked", Ok(e)) >>) \o
   On("C11", IF ~Ok(e) THEN << Chk("C11", "VERDICT", "find_words panicked", FALSE) >> ELSE <<
     Chk("C11", "TOOL", "harness stripper disagrees with StripSeq", e.sep = "uax" => e.orc.st = StripSeq(e.s)),
+    Chk("C11", "TOOL", "oracle opportunities violate the assumed UAX#14 rule 'no break before a space'", e.sep = "uax" => OppsSane(e.s, opps)),
     Chk("C11", "TOOL", "word positions inconsistent with logged texts",
         \A k \in 1..Len(e.res) : LWordConsistent(e.s, e.res[k])),
     Chk("C11", "VERDICT", "words are not a lossless, well-shaped cover of the line", C11Shape(e.s, e.res)),
